@@ -306,6 +306,13 @@ theorem match_line_stable (bufSize : Nat) (data : Bytes) (script : List C04.Step
       C04.readView (C04.Imm.run bufSize data script).2.2.arrays vb.1 = vb.2 :=
   C04.imm_tokens_stable bufSize data script h
 
+/-- The same for the buffered scanner (`readahead.New…`/`Scan` with look-ahead buffers, used by the
+file readers): a slice it handed out is never overwritten by a later refill. -/
+theorem match_line_stable_buffered (m : Nat) (data : Bytes) (script : List C04.Step) (h : 2 ≤ m) :
+    ∀ vb ∈ (C04.Buf.run m data script).1,
+      C04.readView (C04.Buf.run m data script).2.2.arrays vb.1 = vb.2 :=
+  C04.buf_tokens_stable m data script h
+
 /-- The index slice of a dissect match stays what it was: results for earlier lines are not altered by
     matching later lines (C12: the IntPool hands out disjoint views).  Go's `regexp` allocates a fresh
     slice per call, so nothing is shared there. -/
@@ -437,6 +444,54 @@ theorem rx_capture_values (s : Bytes) (r : Rx.Re) (ng p j : Nat) (c : Rx.Caps)
   · intro n hn1 hn2
     rw [getMatch_eq_spec s _ n hwf hlen (by unfold minInt64 maxInt64; omega), Rx.specGroup_group s ng _ n hn1 hn2]
     rfl
+
+/-- **`{name}` on the leftmost-first match.**  With the name table the regex wrapper builds (in any map order),
+`{name}` evaluated on the model engine's index list is the text of the span of the last group carrying that
+name – empty when that group did not participate. -/
+theorem rx_named_capture (s : Bytes) (r : Rx.Re) (ng p j : Nat) (c : Rx.Caps)
+    (h : Rx.search s r = some (p, j, c)) (hng : (ng : Int) < 2305843009213693951)
+    (subexpNames : List Bytes) (names : List (Bytes × Int)) (src : Bytes) (ln : Nat) (key : Bytes) (k : Nat)
+    (hσ : names.Perm (C16.regexNameTable subexpNames)) (hres : key ∉ reservedKeys)
+    (hk : subexpNames[k]? = some key) (hne : key ≠ [])
+    (hlast : ∀ j, k < j → subexpNames[j]? ≠ some key) (hk1 : 1 ≤ k) (hk2 : k ≤ ng) :
+    getKey ⟨s, Rx.findSubmatchIndex s r ng, names, src, ln⟩ key =
+      .ok (.val (match Rx.lookup c k with
+        | some (a, b) => (s.drop a).take (b - a)
+        | none => [])) := by
+  have h1 := getKey_regex_name ⟨s, Rx.findSubmatchIndex s r ng, names, src, ln⟩ subexpNames key k hσ hres hk hne hlast
+  rw [h1]
+  have hidx : Rx.findSubmatchIndex s r ng = Rx.indicesOf ng (p, j, c) := by simp [Rx.findSubmatchIndex, h]
+  obtain ⟨q1, q2, _, _, _, q6⟩ := Rx.search_some s r p j c h
+  have hwf := (Rx.indicesOf_engineWF s ng p j c q1 q2 (Rx.capsIn_of_entries q6)).wf
+  have hlen : ((Rx.indicesOf ng (p, j, c)).length : Int) < 4611686018427387904 := by
+    rw [Rx.indicesOf_length]; omega
+  simp only [hidx]
+  rw [getMatch_eq_spec s _ k hwf hlen (by unfold minInt64 maxInt64; omega), Rx.specGroup_group s ng _ k hk1 hk2]
+  rfl
+
+/-- **`{@}` on the leftmost-first match**: the group texts `1 … ng` of the search result joined by NUL
+(a group that did not participate is an empty element; group 0 is not included). -/
+theorem rx_array_value (s : Bytes) (r : Rx.Re) (ng p j : Nat) (c : Rx.Caps)
+    (h : Rx.search s r = some (p, j, c)) (hng : (ng : Int) < 2305843009213693951) :
+    array s (Rx.findSubmatchIndex s r ng) =
+      .ok (joinSep [0] ((List.range' 1 ng).map fun n =>
+        match Rx.lookup c n with
+        | some (a, b) => (s.drop a).take (b - a)
+        | none => [])) := by
+  have hidx : Rx.findSubmatchIndex s r ng = Rx.indicesOf ng (p, j, c) := by simp [Rx.findSubmatchIndex, h]
+  obtain ⟨q1, q2, _, _, _, q6⟩ := Rx.search_some s r p j c h
+  have hwf := (Rx.indicesOf_engineWF s ng p j c q1 q2 (Rx.capsIn_of_entries q6)).wf
+  have hlen : ((Rx.indicesOf ng (p, j, c)).length : Int) < 4611686018427387904 := by
+    rw [Rx.indicesOf_length]; omega
+  rw [hidx, array_eq s _ hwf hlen, Rx.indicesOf_length]
+  have e : 2 * (ng + 1) / 2 - 1 = ng := by omega
+  rw [e]
+  congr 2
+  apply List.map_congr_left
+  intro n hn
+  have := List.mem_range'_1.mp hn
+  rw [Rx.specGroup_group s ng _ n (by omega) (by omega)]
+  rfl
 
 /-- Non-vacuity: an optional group that did not participate, a nested group, and a missing group. -/
 example : WF [97, 98, 99] [0, 3, -1, -1, 1, 2] ∧
